@@ -602,6 +602,15 @@ func (env *specEnv) conversion(e *ast.CallExpr, to types.Type) SV {
 		t := x.asTerm(v, from)
 		return mkIte(mkEq(t, intLit(0)), T(SAny, "ANil"), app(SAny, "AErr", t))
 	}
+	if isString(to) {
+		if sl, ok := from.Underlying().(*types.Slice); ok {
+			s := x.asTerm(v, from)
+			base, off, ln, _ := x.sliceParts(s)
+			es := x.enc.sortOf(sl.Elem())
+			inner := mkSelect(x.get(env.st, x.elemsKey(es)), base, arraySort(x.enc.isz(), es))
+			return x.ufS("strofbytes_"+sanitize(string(es)), SStr, inner, off, ln)
+		}
+	}
 	if x.enc.sortOf(from) == x.enc.sortOf(to) {
 		return v
 	}
@@ -918,6 +927,9 @@ func (env *specEnv) ghost(name string, targs []ast.Expr, e *ast.CallExpr) SV {
 			args = append(args, env.evalTerm(a))
 		}
 		t := env.typeOf(e)
+		if strings.HasPrefix(fname, "builder_") || strings.HasPrefix(fname, "ext_") || strings.HasPrefix(fname, "jn") {
+			return x.ufS(fname, x.enc.sortOf(t), args...)
+		}
 		return x.ufS("spec_"+sanitize(fname), x.enc.sortOf(t), args...)
 	case "exactCmpIF":
 		// exactCmpIF(i int64, f float64) int : sign of (i - f) over the reals, bv mode
